@@ -98,21 +98,32 @@ def check_kernels(pid, work, log):
     spec = PROPS[pid]
     if not spec.get("kernels"):
         return {"obligations": 0, "discharged": 0, "failed": []}
-    from . import translate
+    from . import translate, translate2
     res = {"obligations": 0, "discharged": 0, "failed": []}
     gen = C.ensure_dir(os.path.join(work, "Gen"))
+    methods = bool(spec.get("methods"))
     try:
         text = translate.generate(C.REPO)
+        mtext = translate2.generate(C.REPO) if methods else None
     except Exception as e:  # fail closed
         res["obligations"] = 1
-        res["failed"].append(f"translator: {e}")
+        res["failed"].append(f"translator: {type(e).__name__}: {e}")
         return res
     open(os.path.join(gen, "Kernels.v"), "w").write(text)
-    shutil.copy(os.path.join(C.COQ, "Gen", "Tie.v"), os.path.join(gen, "Tie.v"))
-    tie_src = strip_comments(open(os.path.join(gen, "Tie.v")).read())
-    names = re.findall(r"Print Assumptions\s+([A-Za-z0-9_'.]+)\s*\.", tie_src)
+    files = ["Kernels.v", "Tie.v"]
+    ties = ["Tie.v"]
+    if methods:
+        open(os.path.join(gen, "Methods.v"), "w").write(mtext)
+        files = ["Kernels.v", "Methods.v", "Tie.v", "TieMethods.v"]
+        ties = ["Tie.v", "TieMethods.v"]
+    names = []
+    for t in ties:
+        shutil.copy(os.path.join(C.COQ, "Gen", t), os.path.join(gen, t))
+        names += re.findall(r"Print Assumptions\s+([A-Za-z0-9_'.]+)\s*\.", strip_comments(open(os.path.join(gen, t)).read()))
     res["obligations"] = len(names)
-    for f in ("Kernels.v", "Tie.v"):
+    res["theorems"] = names
+    closed = 0
+    for f in files:
         p = subprocess.run(["coqc", "-Q", C.COQ, "Soc", "-Q", gen, "SocGen", "-w", "-notation-overridden",
                             os.path.join(gen, f)],
                            stdout=subprocess.PIPE, stderr=subprocess.STDOUT, timeout=600, cwd=gen, env=coq_env())
@@ -121,7 +132,8 @@ def check_kernels(pid, work, log):
             log.append(out[-3000:])
             res["failed"].append(f"Gen/{f}: {out.strip().splitlines()[-1] if out.strip() else 'failed'}")
             return res
-    res["discharged"] = out.count("Closed under the global context")
+        closed += out.count("Closed under the global context")
+    res["discharged"] = closed
     if res["discharged"] != res["obligations"]:
         res["failed"].append(f"Gen/Tie.v: {res['discharged']} closed of {res['obligations']}")
     return res
@@ -431,7 +443,7 @@ def main(argv):
         "property_id": pid, "tier": tier, "seed": seed, "level": "proof",
         "coverage": {
             "obligations": obligations, "discharged": discharged,
-            "theorems": thm["theorems"],
+            "theorems": thm["theorems"] + ker.get("theorems", []),
             "checker_cmd": f"make -C coq (full .vo build) && coqc -Q coq Soc coq/Properties/{pid}.v  [Print Assumptions under every theorem]"
                            + (" && coqchk -o" if chk else ""),
             "trusted_base": spec.get("trusted_base", []) + [
